@@ -3,6 +3,7 @@ package c19
 import (
 	"bytes"
 	"context"
+	"crypto/md5"
 	"encoding/binary"
 	"encoding/json"
 	"errors"
@@ -23,7 +24,6 @@ import (
 	mcnet "github.com/Tnze/go-mc/net"
 	pk "github.com/Tnze/go-mc/net/packet"
 	"github.com/Tnze/go-mc/net/queue"
-	"github.com/Tnze/go-mc/offline"
 	"github.com/Tnze/go-mc/server"
 	"github.com/Tnze/go-mc/yggdrasil/user"
 
@@ -949,7 +949,7 @@ func scenarioWorld(c *harness.Ctx) {
 			c.Fail("gate.join", "server", "accept-player-count", "%s: AcceptPlayer called %d times", tag, b.accepted)
 			return
 		}
-		want := offline.NameToUUID(b.name)
+		want := refOfflineUUID(b.name)
 		if b.accName != b.name || b.cliName != b.name {
 			c.Fail("gate.identity", "name", "mismatch", "%s: server got name %q, client has %q", tag, b.accName, b.cliName)
 			return
@@ -1121,7 +1121,7 @@ func checkStatus(c *harness.Ctx, raw []byte, pi *server.PingInfo, pl *server.Pla
 	}
 	known := map[string]uuid.UUID{}
 	for _, b := range bots {
-		known[b.name] = offline.NameToUUID(b.name)
+		known[b.name] = refOfflineUUID(b.name)
 	}
 	for _, s := range got.Players.Sample {
 		if id, ok := known[s.Name]; !ok || id != s.ID {
@@ -1167,6 +1167,15 @@ func checkStatus(c *harness.Ctx, raw []byte, pi *server.PingInfo, pl *server.Pla
 	if ping == nil || !bytes.Equal(ping, pong) {
 		c.Fail("gate.status", "pong", "payload", "ping payload %x, pong payload %x", ping, pong)
 	}
+}
+
+// refOfflineUUID is the vanilla definition of an offline-mode UUID,
+// independent of the library: UUID v3-style from MD5("OfflinePlayer:" + name).
+func refOfflineUUID(name string) uuid.UUID {
+	h := md5.Sum([]byte("OfflinePlayer:" + name))
+	h[6] = h[6]&0x0f | 0x30
+	h[8] = h[8]&0x3f | 0x80
+	return uuid.UUID(h)
 }
 
 var prop = &harness.Property{
